@@ -223,6 +223,11 @@ pub fn gen_script(t: &mut Tape, gates: &Gates, max_len: usize) -> Script {
     for d in deep_docs() {
         pool.push(d.clone());
     }
+    // long documents (hundreds to thousands of tokens; nothing deep about them)
+    for n in [60usize, 300, 1500] {
+        pool.push(format!("PROGRAM p\nVAR\nx : INT;\nEND_VAR\n{}END_PROGRAM\n", "x := x + 1;\n".repeat(n)));
+        pool.push(format!("FUNCTION_BLOCK f\nVAR\n{}END_VAR\nEND_FUNCTION_BLOCK\n", (0..n).map(|k| format!("v{} : INT := {};\n", k, k)).collect::<String>()));
+    }
     let extra: Vec<String> = pool.iter().flat_map(|d| vec![d.trim_end().to_string(), format!("{}\n\n  ", d)]).collect();
     pool.extend(extra);
     let pool: Vec<&str> = pool.iter().map(|x| x.as_str()).collect();
@@ -286,11 +291,16 @@ pub fn gen_script(t: &mut Tape, gates: &Gates, max_len: usize) -> Script {
                 });
             }
             4 | 5 => {
-                let id = request_id(t, next_id, "s");
-                next_id += 1;
-                s.messages.push(lsp_semantic_tokens(id.clone(), uri));
-                s.requests.push((id, "textDocument/semanticTokens/full".into()));
-                s.kinds.push("semanticTokens");
+                // (the same question may be asked again at once - an editor does after a scroll or a
+                // focus change -: every asking has its own id and its own answer)
+                let reps = *t.pick(&[1usize, 1, 1, 2, 3]);
+                for _ in 0..reps {
+                    let id = request_id(t, next_id, "s");
+                    next_id += 1;
+                    s.messages.push(lsp_semantic_tokens(id.clone(), uri));
+                    s.requests.push((id, "textDocument/semanticTokens/full".into()));
+                    s.kinds.push("semanticTokens");
+                }
             }
             6 => {
                 if gates.want("REQUEST_FOR_UNIMPLEMENTED_METHOD") {
